@@ -1,7 +1,6 @@
-(* C29 — HEAD runs (simulation by the GET run), the model satisfies the checker,
-   and the statements quoted in Property.v. *)
+(* C29 — HEAD runs (simulation by the GET run) and the model against the checker. *)
 From Coq Require Import String.
-From Coq Require Import List NArith Bool Arith Lia.
+From Coq Require Import List NArith ZArith Bool Arith Lia.
 Import ListNotations.
 From TV Require Import Lib.Obs C29.Model C29.Run C29.Proofs1 C29.Proofs2 C29.Proofs3.
 Local Open Scope N_scope.
@@ -9,169 +8,147 @@ Local Open Scope N_scope.
 (* ---------- a HEAD run is the GET run with every chunk dropped ---------- *)
 Definition set_sent {c} (s : st c) (x : list bytes) : st c :=
   mkSt (hd s) (buf s) (written s) (gzipping s) (gz s) (gval s) (w_hdrs s) x (err s).
-Definition Sim {c} (sH sG : st c) : Prop := sH = set_sent sG (sent sH) /\ concat (sent sH) = [].
+Definition Sim0 {c} (sH sG : st c) : Prop := sH = set_sent sG (sent sH) /\ concat (sent sH) = [].
+Definition Sim {c} (sH sG : hs c) : Prop :=
+  Sim0 (core sH) (core sG) /\ code sH = code sG /\ wcode sH = wcode sG.
 
-Lemma sim_flush : forall c (eH eG : env), is_head eH = true -> is_head eG = false ->
-  forall f (sH sG : st c), Sim sH sG -> Sim (flush eH f sH) (flush eG f sG).
+Definition envH (ae : option bytes) (cp : bool) : env := {| is_head := true; accept_enc := ae; compress := cp |}.
+Definition envG (ae : option bytes) (cp : bool) : env := {| is_head := false; accept_enc := ae; compress := cp |}.
+
+Lemma sim_flush0 : forall c ae cp k f (sH sG : st c), Sim0 sH sG ->
+  Sim0 (flush (envH ae cp) k f sH) (flush (envG ae cp) k f sG).
 Proof.
-  intros c eH eG HH HG f sH sG [E1 E2]. rewrite E1. clear E1.
+  intros c ae cp k f sH sG [E1 E2]. rewrite E1. clear E1.
   destruct sG as [hd0 buf0 wr gzf gzo gv wh sn er].
-  unfold Sim, flush, set_sent, transform_first_chunk, transform_chunk; simpl. rewrite HH, HG.
-  destruct wr; simpl.
-  - destruct gzf; simpl.
-    + destruct gzo; simpl.
-      * destruct (gz_write c g (concat buf0)). destruct f. simpl. split; auto.
-        destruct (gz_flush c g0). simpl. split; auto.
+  unfold Sim0, flush, set_sent, transform_first_chunk, transform_chunk; simpl.
+  destruct cp; simpl.
+  - destruct wr; simpl.
+    + destruct gzf; simpl.
+      * destruct gzo; simpl.
+        -- destruct (gz_write c g (concat buf0)). destruct f. simpl. split; auto.
+           destruct (gz_flush c g0). simpl. split; auto.
+        -- split; auto.
       * split; auto.
-    + split; auto.
-  - destruct (if gzf then gzip_decision (vary_step hd0) (concat buf0) f else false); simpl.
-    + destruct (gz_open c). simpl. destruct (gz_write c g (concat buf0)). destruct f; simpl.
+    + destruct (if gzf then gzip_decision (vary_step hd0) k (concat buf0) f else false); simpl.
+      * destruct (gz_open c). simpl. destruct (gz_write c g (concat buf0)). destruct f; simpl.
+        -- split; auto. rewrite concat_app. rewrite E2. reflexivity.
+        -- destruct (gz_flush c g0). simpl. split; auto. rewrite concat_app. rewrite E2. reflexivity.
       * split; auto. rewrite concat_app. rewrite E2. reflexivity.
-      * destruct (gz_flush c g0). simpl. split; auto. rewrite concat_app. rewrite E2. reflexivity.
-    + split; auto. rewrite concat_app. rewrite E2. reflexivity.
+  - destruct wr; simpl; split; auto. rewrite concat_app. rewrite E2. reflexivity.
 Qed.
 
-Lemma sim_step : forall c (eH eG : env), is_head eH = true -> is_head eG = false ->
-  forall o (sH sG : st c), Sim sH sG -> Sim (step eH sH o) (step eG sG o).
+Lemma sim_written : forall c (sH sG : st c), Sim0 sH sG -> written sH = written sG /\ hd sH = hd sG /\ buf sH = buf sG.
+Proof. intros c sH sG [E1 _]. rewrite E1. destruct sG; simpl; auto. Qed.
+
+Lemma sim_do_flush : forall c ae cp f (sH sG : hs c), Sim sH sG ->
+  Sim (do_flush (envH ae cp) f sH) (do_flush (envG ae cp) f sG).
 Proof.
-  intros c eH eG HH HG o sH sG S.
-  destruct o; try (destruct S as [E1 E2]; rewrite E1; destruct sG; unfold Sim; simpl; split; [reflexivity|exact E2]).
-  simpl. apply sim_flush; auto.
+  intros c ae cp f sH sG [S0 [S1 S2]]. unfold do_flush, Sim. simpl.
+  destruct (sim_written c _ _ S0) as [W _]. rewrite S1, S2, W. split; auto.
+  apply sim_flush0. exact S0.
 Qed.
 
-Lemma sim_exec : forall c (eH eG : env), is_head eH = true -> is_head eG = false ->
-  forall p (sH sG : st c), Sim sH sG -> Sim (exec eH p sH) (exec eG p sG).
+Lemma sim_set : forall c (sH sG : st c) (f : st c -> st c),
+  (forall s x, f (set_sent s x) = set_sent (f s) x) -> (forall s, sent (f s) = sent s) ->
+  Sim0 sH sG -> Sim0 (f sH) (f sG).
 Proof.
-  intros c eH eG HH HG p. induction p as [|o p IH]; intros sH sG S; auto.
+  intros c sH sG f Hf Hs [E1 E2]. unfold Sim0. rewrite Hs. split; auto.
+  rewrite E1 at 1. apply Hf.
+Qed.
+
+Lemma sim_step : forall c ae cp o (sH sG : hs c), Sim sH sG -> Sim (step (envH ae cp) sH o) (step (envG ae cp) sG o).
+Proof.
+  intros c ae cp o sH sG S.
+  destruct o; try (apply sim_do_flush; exact S);
+    destruct S as [S0 [S1 S2]]; destruct (sim_written c _ _ S0) as [_ [HD _]];
+    unfold Sim; simpl; rewrite ?HD; (split; [|split; auto]).
+  - apply (sim_set c _ _ (fun s => set_hd s (hset (norm name) value (hd (core sG))))); auto; intros []; reflexivity.
+  - apply (sim_set c _ _ (fun s => set_hd s (hadd (norm name) value (hd (core sG))))); auto; intros []; reflexivity.
+  - apply (sim_set c _ _ (fun s => set_hd s (clear_header (norm name) (hd (core sG))))); auto; intros []; reflexivity.
+  - apply (sim_set c _ _ (fun s => push s chunk)); auto; intros []; reflexivity.
+  - exact S0.
+Qed.
+
+Lemma sim_exec : forall c ae cp p (sH sG : hs c), Sim sH sG -> Sim (exec (envH ae cp) p sH) (exec (envG ae cp) p sG).
+Proof.
+  intros c ae cp p. induction p as [|o p IH]; intros sH sG S; auto.
   unfold exec in *. simpl. apply IH. apply sim_step; auto.
 Qed.
 
-Lemma sim_finish : forall c (eH eG : env), is_head eH = true -> is_head eG = false ->
-  forall fin (sH sG : st c), Sim sH sG -> Sim (finish eH fin sH) (finish eG fin sG).
+Lemma sim_finish : forall c ae cp fin (sH sG : hs c), Sim sH sG ->
+  match finish (envH ae cp) fin sH, finish (envG ae cp) fin sG with
+  | Some a, Some b' => Sim a b'
+  | None, None => True
+  | _, _ => False
+  end.
 Proof.
-  intros c eH eG HH HG fin sH sG S. unfold finish.
-  apply sim_flush; auto.
-  assert (S1 : Sim (match fin with Some d => push sH d | None => sH end)
-                   (match fin with Some d => push sG d | None => sG end)).
-  { destruct fin as [d|]; auto. apply (sim_step c eH eG HH HG (Write d) sH sG S). }
-  destruct S1 as [E1 E2]. rewrite E1.
-  destruct (match fin with Some d => push sG d | None => sG end) as [hd0 buf0 wr gzf gzo gv wh sn er].
-  unfold Sim, set_sent, set_hd. simpl. destruct wr; simpl; [split; auto|].
-  destruct (hmem K_CL hd0); simpl; split; auto.
+  intros c ae cp fin sH sG S. unfold finish.
+  assert (S1 : Sim (match fin with Some d => step (envH ae cp) sH (Write d) | None => sH end)
+                   (match fin with Some d => step (envG ae cp) sG (Write d) | None => sG end)).
+  { destruct fin as [d|]; auto. apply (sim_step c ae cp (Write d) sH sG S). }
+  remember (match fin with Some d => step (envH ae cp) sH (Write d) | None => sH end) as aH.
+  remember (match fin with Some d => step (envG ae cp) sG (Write d) | None => sG end) as aG.
+  clear HeqaH HeqaG S.
+  destruct S1 as [S0 [S1 S2]]. destruct (sim_written c _ _ S0) as [W [HD BF]].
+  rewrite W, S1, HD, BF.
+  destruct (written (core aG)).
+  - apply sim_do_flush. unfold Sim; auto.
+  - destruct (bodiless (code aG)).
+    + destruct (buf (core aG)); auto. apply sim_do_flush. unfold Sim; simpl. rewrite S2. split; [|split; auto].
+      apply (sim_set c _ _ (fun s => set_hd s (clear_repr (hd (core aG))))); auto; intros []; reflexivity.
+    + destruct (hmem K_CL (hd (core aG))).
+      * apply sim_do_flush. unfold Sim; auto.
+      * apply sim_do_flush. unfold Sim; simpl. rewrite S2. split; [|split; auto].
+        apply (sim_set c _ _ (fun s => set_hd s (hset K_CL (dec_len (concat (buf (core aG)))) (hd (core aG))))); auto;
+          intros []; reflexivity.
 Qed.
 
-Lemma sim_run : forall c ae prog fin,
-  Sim (run c {| is_head := true; accept_enc := ae |} prog fin)
-      (run c {| is_head := false; accept_enc := ae |} prog fin).
+Lemma sim_run : forall c ae cp prog fin,
+  match run c (envH ae cp) prog fin, run c (envG ae cp) prog fin with
+  | Some a, Some b' => Sim a b'
+  | None, None => True
+  | _, _ => False
+  end.
 Proof.
-  intros. unfold run. apply sim_finish; auto. apply sim_exec; auto.
-  unfold Sim, init, set_sent, ae_gzip. simpl. auto.
+  intros. unfold run. apply sim_finish. apply sim_exec.
+  unfold Sim, Sim0, init, set_sent, ae_gzip. simpl. auto.
 Qed.
 
 (* ---------- everything about the response, GET or HEAD ---------- *)
-Lemma run_summary_any : forall c head ae prog fin,
-  let s := run c {| is_head := head; accept_enc := ae |} prog fin in
-  let sG := run c {| is_head := false; accept_enc := ae |} prog fin in
-  let hh := handler_hdrs prog in
+Lemma run_summary_any : forall c head ae cp prog fin,
+  let e := {| is_head := head; accept_enc := ae; compress := cp |} in
+  let hh := eff_hdrs prog in
+  let fh := final_hdrs prog fin in
   let all := writes prog ++ fin_bytes fin in
-  let D := expected_gzip ae prog fin in
-  exists r, outcome_of s = Resp r /\
-    vary_mentions_ae (r_vary r) = true /\
+  let D := cp && expected_gzip ae prog fin (hlist K_CT hh) in
+  if assertion_fails prog fin then outcome_of (run c e prog fin) = AssertFail
+  else exists sG r, run c (envG ae cp) prog fin = Some sG /\ outcome_of (run c e prog fin) = Resp r /\
+    r_status r = status_at prog /\
     r_ct r = hlist K_CT hh /\
     r_ce r = (if D then [V_GZIP] else hlist K_CE hh) /\
-    r_cl r = (if D then (if has_flush prog then [] else [dec_len (concat (sent sG))])
-              else hlist K_CL (hh1 prog fin)) /\
+    r_cl r = (if D then (if has_flush prog then [] else [dec_len (concat (sent (core sG)))])
+              else hlist K_CL fh) /\
+    (if cp then vary_mentions_ae (r_vary r) = true else r_vary r = hlist K_VARY fh) /\
     (if head then concat (r_sent r) = []
-     else r_sent r = sent sG /\
-          if D then exists hist, concat (sent sG) = gz_stream c hist /\ gz_data hist = all
-          else concat (sent sG) = all).
+     else r_sent r = sent (core sG) /\
+          if D then exists hist, concat (sent (core sG)) = gz_stream c hist /\ gz_data hist = all
+          else concat (sent (core sG)) = all).
 Proof.
-  intros c head ae prog fin. cbv zeta.
-  destruct (run_summary c {| is_head := false; accept_enc := ae |} eq_refl prog fin)
-    as [r [R0 [R1 [R2 [R3 [R4 [R5 R6]]]]]]]. simpl accept_enc in *.
-  destruct head.
-  - destruct (sim_run c ae prog fin) as [E1 E2].
-    unfold outcome_of in *. rewrite E1. simpl.
-    destruct (err (run c {| is_head := false; accept_enc := ae |} prog fin)); try discriminate.
-    destruct (w_hdrs (run c {| is_head := false; accept_enc := ae |} prog fin)) as [H|]; try discriminate.
-    inversion R0; subst r; simpl in *. eexists. split. reflexivity. simpl. repeat split; auto.
-  - exists r. repeat split; auto.
-Qed.
-
-(* ---------- the model satisfies the checker ---------- *)
-Lemma list_beqb_refl : forall l, list_beqb l l = true.
-Proof.
-  induction l as [|x l IH]; simpl; auto. unfold list_beqb in *. simpl. rewrite beqb_refl, IH. reflexivity.
-Qed.
-
-Lemma expected_no_ce : forall ae prog fin, expected_gzip ae prog fin = true ->
-  hmem K_CE (handler_hdrs prog) = false.
-Proof.
-  intros ae prog fin H. unfold expected_gzip in H. apply andb_true_iff in H as [_ H].
-  apply negb_true_iff in H. exact H.
-Qed.
-
-Lemma first_chunk_all : forall prog fin, has_flush prog = false ->
-  first_chunk prog fin = writes prog ++ fin_bytes fin.
-Proof. intros prog fin H. unfold first_chunk. rewrite H. reflexivity. Qed.
-
-Lemma check_resp_ok : forall c gunzip, codec_ok c gunzip -> forall head ae prog fin,
-  exists r, outcome_of (run c {| is_head := head; accept_enc := ae |} prog fin) = Resp r /\
-            check_resp gunzip head ae prog fin r = true.
-Proof.
-  intros c gunzip OK head ae prog fin.
-  destruct (run_summary_any c head ae prog fin) as [r [R0 [R2 [R3 [R4 [R5 R6]]]]]].
-  exists r. split. exact R0.
-  unfold check_resp. cbv zeta. rewrite R3.
-  change (mentions_gzip ae && compressible (before_semi (join_comma (hlist K_CT (handler_hdrs prog))))
-          && (has_flush prog || (MIN_LENGTH <=? length (first_chunk prog fin))%nat)
-          && negb (hmem K_CE (handler_hdrs prog))) with (expected_gzip ae prog fin).
-  set (hh := handler_hdrs prog) in *. set (D := expected_gzip ae prog fin) in *.
-  set (sG := run c {| is_head := false; accept_enc := ae |} prog fin) in *.
-  assert (GZ : negb (hmem K_CE hh) && list_beqb (r_ce r) [V_GZIP] = D).
-  { rewrite R4. destruct D eqn:ED.
-    - pose proof (expected_no_ce ae prog fin ED) as NCE. fold hh in NCE. rewrite NCE. reflexivity.
-    - destruct (hmem K_CE hh) eqn:E; auto. rewrite (hmem_false_hlist _ _ E). reflexivity. }
-  rewrite GZ.
-  match goal with |- ?a && ?b && ?c && ?d = true =>
-    assert (Ha : a = true); [exact R2|
-    assert (Hb : b = true); [|
-    assert (Hc : c = true); [destruct D; reflexivity|
-    assert (Hd : d = true); [|rewrite Ha, Hb, Hc, Hd; reflexivity]]]]
-  end.
-  - (* body *)
-    destruct head.
-    + rewrite R6. reflexivity.
-    + destruct R6 as [R6 G]. rewrite R6. rewrite R4. destruct D eqn:ED.
-      * pose proof (expected_no_ce ae prog fin ED) as NCE. fold hh in NCE. rewrite NCE.
-        destruct G as [hist [G1 G2]]. rewrite G1. rewrite OK. rewrite G2.
-        rewrite !beqb_refl. reflexivity.
-      * rewrite G. rewrite beqb_refl. destruct (hmem K_CE hh) eqn:E.
-        -- rewrite list_beqb_refl. reflexivity.
-        -- rewrite (hmem_false_hlist _ _ E). reflexivity.
-  - (* Content-Length *)
-    rewrite R5. destruct D eqn:ED.
-    + rewrite orb_true_l. destruct (has_flush prog); auto.
-      destruct head; auto. destruct R6 as [R6 _]. rewrite R6. rewrite orb_false_l. apply beqb_refl.
-    + rewrite orb_false_l. destruct (hmem K_CL hh) eqn:ECL; auto. cbv [negb].
-      unfold hh1. fold hh. rewrite ECL.
-      destruct (has_flush prog) eqn:HF.
-      * rewrite (hmem_false_hlist _ _ ECL). reflexivity.
-      * autorewrite with keys. destruct head; auto. rewrite orb_false_l.
-        destruct R6 as [R6 G]. rewrite R6, G. rewrite first_chunk_all by exact HF. apply beqb_refl.
-Qed.
-
-Lemma bytes_list_map : forall l, bytes_list (map OBytes l) = Some l.
-Proof. induction l as [|x l IH]; simpl; auto. rewrite IH. reflexivity. Qed.
-Lemma resp_roundtrip : forall r, resp_of_obs (obs_of (Resp r)) = Some r.
-Proof. intros [a b' c d s]. simpl. rewrite !bytes_list_map. reflexivity. Qed.
-
-Theorem check_case_model : forall i, check_case i (run_case i) = true.
-Proof.
-  intros [[[[toy_mode head] ae] prog] fin]. unfold check_case, run_case, run_outcome.
-  destruct toy_mode.
-  - destruct (check_resp_ok toy toy_gunzip toy_ok head ae prog fin) as [r [E1 E2]].
-    rewrite E1. rewrite resp_roundtrip. exact E2.
-  - destruct (check_resp_ok sym sym_gunzip sym_ok head ae prog fin) as [r [E1 E2]].
-    rewrite E1. rewrite resp_roundtrip. exact E2.
+  intros c head ae cp prog fin. cbv zeta.
+  pose proof (run_summary c (envG ae cp) eq_refl prog fin) as G. cbv zeta in G. simpl accept_enc in G. simpl compress in G.
+  pose proof (sim_run c ae cp prog fin) as S.
+  destruct (assertion_fails prog fin).
+  - destruct head.
+    + fold (envH ae cp). rewrite G in S. destruct (run c (envH ae cp) prog fin); [contradiction|reflexivity].
+    + fold (envG ae cp). rewrite G. reflexivity.
+  - destruct G as [sG [r [ES [R0 [R1 [R2 [R3 [R4 [R5 [R6 R7]]]]]]]]]].
+    exists sG. destruct head.
+    + fold (envH ae cp). rewrite ES in S. destruct (run c (envH ae cp) prog fin) as [sH|]; [|contradiction].
+      destruct S as [[E1 E2] [S1 S2]].
+      unfold outcome_of in *. rewrite E1. simpl.
+      destruct (err (core sG)); try discriminate.
+      destruct (w_hdrs (core sG)) as [H|]; try discriminate.
+      inversion R0; subst r; simpl in *. eexists. split. exact ES. split. reflexivity.
+      simpl. rewrite S2. repeat split; auto.
+    + fold (envG ae cp). exists r. rewrite ES. repeat split; auto.
 Qed.
